@@ -5,8 +5,10 @@ or `P.e(ent)` (`end <name>` identifier), so that for every logical entity the ex
 (file, line, UTF-16 column range, spelling) is known WITHOUT asking the implementation: this is the reference
 occurrence set (the "Mini/Rename" side of DESIGN.md C09) the edits of the server are compared with.
 
-A logical entity is what the LRM calls one named entity: a subprogram declaration together with its body,
-a deferred constant together with its full declaration, and their formal parameters, are ONE entity each.
+A logical entity: a subprogram declaration together with its body, and a deferred constant together with its full
+declaration, are ONE entity each.  The formal parameters of a subprogram declaration and those of its body are
+SEPARATE entities (the implementation's entity model; a named association in a call belongs to the declaration
+side), see `split_decl_body_param`.
 Names are shared between entities on purpose (overloaded subprograms and enumeration literals, record elements of
 different records, hiding of an outer name by an inner one, components named like entities, ports of a component
 named like the ports of the entity, names that are prefixes of other names) and every spelling varies in letter case.
@@ -19,8 +21,7 @@ SP = object()      # random white space / comment
 NL = "\n"
 
 # site tags of the finding families (documented in checks/c09.py: FINDING_SITES)
-FAMILIES = ["config_spec", "block_config", "block_map_formal", "resolution_function", "param_conformance",
-            "two_libraries"]
+FAMILIES = ["config_spec", "block_config", "block_map_formal", "resolution_function", "two_libraries"]
 
 
 class Ent:
@@ -30,7 +31,7 @@ class Ent:
         self.kind = kind
         self.renameable = renameable
         self.extended = extended
-        self.finding = None      # entity-level finding family (param_conformance)
+        self.finding = None      # entity-level finding family (two_libraries)
         self.occs = []
 
     def __repr__(self):
@@ -273,7 +274,7 @@ def gen_project(seed, idx, family=None):
     f_int = P.ent("fn", "function", name=fname)
     f_bit = P.ent("fn", "function", name=fname)
     f_col = P.ent("fn", "function", name=fname)
-    # parameters: one logical entity for declaration + body (LRM 4.10 conformance)
+    # parameters: written through one Ent here, split into declaration-side / body-side entities below
     pname = P.fresh_name("x")
     fp_int = P.ent("x", "parameter", name=pname)
     fp_bit = P.ent("x", "parameter", name=pname)
@@ -292,7 +293,6 @@ def gen_project(seed, idx, family=None):
     res_st = P.ent("rbit_t", "subtype")
     ext_c = P.ent("ext", "constant", name="\\Ext " + R.choice(["Id", "a-b", "x y"]) + "\\", extended=True) \
         if R.random() < 0.3 else None
-    decl_has_params = family == "param_conformance"
 
     P.file("types_pk.vhd", L1)
     if R.random() < 0.4:
@@ -366,15 +366,9 @@ def gen_project(seed, idx, family=None):
         ln("    return ", r(res_p), "(", r(res_p), "'low);")
         ln("  end function ", e(res_f), ";")
     ln("end package body ", e(PK), ";")
-    # the declaration-side parameter occurrences belong to the same logical entity: nothing else to do.
-    if decl_has_params:
-        for pe in (fp_int, fp_bit, fp_col, pr_s, pr_v, u_fa, res_p):
-            pe.finding = "param_conformance"
-    else:
-        # sound family: declaration and body parameters are treated as the implementation treats them
-        # (two entities): split the logical entities so that the expected sets match the LRM-agnostic reading
-        for pe in (fp_int, fp_bit, fp_col, pr_s, pr_v, u_fa, res_p):
-            split_decl_body_param(P, pe)
+    decl_side = {}
+    for pe in (fp_int, fp_bit, fp_col, pr_s, pr_v, u_fa, res_p):
+        decl_side[pe] = split_decl_body_param(P, pe)
 
     # ------------------------------------------------------------------ lib1: core entity + architecture
     E = P.ent("core", "entity")
@@ -487,6 +481,10 @@ def gen_project(seed, idx, family=None):
     ln("    if ", r(p_clk), "'event and ", r(p_clk), " = '1' then")
     ln("      ", r(v1), " := ", r(f_int), "(", r(v1), ") + ", r(f_bit), "(", r(p_a), ") + ", r(locf), "(", r(c_w), ") + ", r(g_w), ";")
     ln("      ", r(vc), " := ", r(f_col), "(", r(colsig), ");")
+    if R.random() < 0.7:
+        # named association: the formal belongs to the declaration-side parameter
+        ln("      ", r(v1), " := ", r(f_int), "(", r(decl_side[fp_int]), " => ", r(v1), ") + ", r(f_bit), "(", r(decl_side[fp_bit]),
+           SP, "=>", SP, r(p_a), ");")
     ln("      ", r(vc), " := ", r(vc), " + ", r(lit_c[2]), ";")
     ln("      ", r(colsig), " <= ", r(vc), ";")
     ln("      ", r(r1), ".", r(el_a), " <= ", r(v1), ";")
@@ -641,14 +639,15 @@ def gen_project(seed, idx, family=None):
 
 
 def split_decl_body_param(P, pe):
-    """In the sound family the declaration-side and the body-side formal parameter of a subprogram are kept as two
-    entities (as the implementation does); the LRM-level reading (one entity, conformance) is the
-    `param_conformance` family."""
+    """The declaration-side and the body-side formal parameter of a subprogram are two entities (as in the
+    implementation's entity model); occurrences written before the second declaring occurrence (the declaration
+    itself and named associations written in between) stay with the declaration side."""
     if len([o for o in pe.occs if o.role == "d"]) < 2:
-        return
+        return pe
     first = pe.occs[0]
     twin = Ent(len(P.ents), pe.name, pe.kind)
     P.ents.append(twin)
     pe.occs.remove(first)
     first.ent = twin
     twin.occs.append(first)
+    return twin
